@@ -109,7 +109,7 @@ def edge_lines(ctx):
 def run(ctx):
     if ctx.replay:
         return streams.replay(ctx, "alloc")
-    scns = scenarios(ctx) + edge_lines(ctx)
+    scns = scenarios(ctx) + edge_lines(ctx) + gens.gaps(ctx.seed, ctx.quick)      # gaps at every position of small exchanges (incl. compressed / urlencoded bodies)
     import drift
     drift.with_steps(scns, every=max(1, -(-len(scns) // (400 if ctx.quick else 5000))))
     exe = vlib.build(ctx, "alloc", ["rec"])["rec"]
@@ -129,7 +129,8 @@ def run(ctx):
         "rule": "histories = corpus captures (original, 1-byte, random cuts), byte-mutated captures and the exchange library, each under a random point of the "
                 "configuration lattice (8 personalities, auto-destroy, tx_freed, (de)compression, parsers, tiny field limits, max_tx, layer/bomb limits, logging) with "
                 "callback behaviours {OK, DECLINED, STOP, ERROR at the n-th call of a hook, register tx-level body hook, destroy tx in TRANSACTION_COMPLETE} and, in raw "
-                "mode, gaps, destroy-between-calls, close in the middle and data after close; non-trivial = at least one data byte; distinct = distinct scenario text",
+                "mode, gaps, destroy-between-calls, close in the middle and data after close; plus the gap family (a gap at every position of 8 small exchanges: identity, close-delimited, "
+                "gzip response, urlencoded / chunked / gzip (request decompression on) request bodies, HTTP/0.9); non-trivial = at least one data byte; distinct = distinct scenario text",
         "samples": [scns[1].text()[:500], scns[len(scns) // 2].text()[:500]],
         "trusted_base": ["AddressSanitizer + UndefinedBehaviorSanitizer (gcc 12) detect the undefined behaviour itself", "harness/vf_alloc.c counts live libhtp allocations"],
     }, assumptions=["undefined behaviour is observed by ASan/UBSan in the recorder build, not decided by the specification (DESIGN.md 5/C01)"])
